@@ -96,6 +96,7 @@ type vfC14Env struct {
 	srv                      *vfSrv
 	c                        *vfClient
 	root, dir, file, link, stale uint64
+	specials                     []uint64
 }
 
 func vfC14Setup(opts ExportOptions) (*vfC14Env, error) {
@@ -107,6 +108,8 @@ func vfC14Setup(opts ExportOptions) (*vfC14Env, error) {
 	fs.PlantFile("/d/f", []byte("some file data for reading"), 0666, 0, 0)
 	fs.PlantSymlink("/d/ln", "f")
 	fs.PlantFile("/gone", nil, 0666, 0, 0)
+	// objects of every kind a backend's lstat can report, including ones RFC 1813 has no ftype3 for
+	vfC14PlantSpecials(fs)
 	srv, err := vfNewSrv(fs, opts)
 	if err != nil {
 		return nil, err
@@ -126,7 +129,27 @@ func vfC14Setup(opts ExportOptions) (*vfC14Env, error) {
 	e.file = look(e.dir, "f")
 	e.link = look(e.dir, "ln")
 	e.stale = 0xdeadbeef
+	for _, sp := range vfC14Specials {
+		if h := look(e.dir, sp.name); h != 0 {
+			e.specials = append(e.specials, h)
+		}
+	}
 	return e, nil
+}
+
+var vfC14Specials = []struct {
+	name string
+	bits os.FileMode
+}{
+	{"sp-fifo", os.ModeNamedPipe}, {"sp-socket", os.ModeSocket}, {"sp-blockdev", os.ModeDevice},
+	{"sp-chardev", os.ModeDevice | os.ModeCharDevice}, {"sp-irregular", os.ModeIrregular},
+	{"sp-chardev-bit-alone", os.ModeCharDevice}, {"sp-fifo-and-socket", os.ModeNamedPipe | os.ModeSocket},
+}
+
+func vfC14PlantSpecials(fs *refs.FS) {
+	for _, sp := range vfC14Specials {
+		fs.PlantSpecial("/d/"+sp.name, sp.bits, 0644)
+	}
 }
 
 // calls returns (prog, vers, proc, args, shape) tuples covering every procedure.
@@ -145,6 +168,17 @@ func (e *vfC14Env) calls(rng interface{ Intn(int) int }, deep bool) [][5]any {
 		h32 := (&xdrw.W{}).Opaque(make([]byte, 32)).B // legal size, unknown handle
 		byProc[proc] = append(byProc[proc], append(h32, xdrw.ArgDirop(e.dir, "f")[12:]...))
 	}
+	for _, sp := range vfC14Specials {
+		byProc[3] = append(byProc[3], xdrw.ArgDirop(e.dir, sp.name))
+	}
+	for _, h := range e.specials {
+		byProc[1] = append(byProc[1], xdrw.ArgFH(h))
+		byProc[4] = append(byProc[4], xdrw.ArgAccess(h, 0x3f))
+		byProc[5] = append(byProc[5], xdrw.ArgFH(h))
+		byProc[6] = append(byProc[6], xdrw.ArgRead(h, 0, 16))
+		byProc[3] = append(byProc[3], xdrw.ArgDirop(h, "x"))
+	}
+	byProc[17] = append(byProc[17], xdrw.ArgReaddirplus(e.dir, 0, [8]byte{}, 8192, 32768))
 	byProc[3] = append(byProc[3], xdrw.ArgDirop(e.dir, string(make([]byte, 9000))), xdrw.ArgDirop(e.dir, "absent"), xdrw.ArgDirop(e.file, "x"), xdrw.ArgDirop(e.dir, ".."))
 	byProc[13] = append(byProc[13], xdrw.ArgDirop(e.dir, "full"), xdrw.ArgDirop(e.dir, "f"))
 	byProc[12] = append(byProc[12], xdrw.ArgDirop(e.dir, "full"))
